@@ -36,6 +36,22 @@ Proof.
     + inversion H; subst. rewrite (IH _ _ _ _ E1) by auto. reflexivity.
 Qed.
 
+(* the for-in loop, for an abstract body evaluator *)
+Lemma forin_loop_mono : forall (ev ev' : nat -> state -> res * state),
+  (forall c st r st', ev c st = (r, st') -> r <> RFuel -> ev' c st = (r, st')) ->
+  forall n n' s st r st', n <= n' -> forin_loop ev n s st = (r, st') -> r <> RFuel ->
+  forin_loop ev' n' s st = (r, st').
+Proof.
+  intros ev ev' Hev. induction n as [|n IH]; intros n' s st r st' Hle H Hne.
+  - rewrite forin_loop_O in H. inversion H; subst; congruence.
+  - destruct n' as [|n']; [lia|]. rewrite forin_loop_S in *.
+    destruct (forin_step st s) as [|rf|c st1 s']; try exact H.
+    destruct (ev c st1) as [r2 s2] eqn:E2.
+    destruct r2; try (rewrite (Hev _ _ _ _ E2) by discriminate; try exact H).
+    + apply IH; [lia|exact H|exact Hne].
+    + inversion H; subst; congruence.
+Qed.
+
 Ltac mono_fin :=
   match goal with
   | H : (?r1, ?s1) = (?r, ?s), Hne : ?r <> RFuel |- _ =>
@@ -79,6 +95,11 @@ Ltac mono_step IHe IHi IHh Hle :=
 Ltac mono_solve IHe IHi IHh Hle :=
   repeat (mono_step IHe IHi IHh Hle);
   try mono_fin;
+  try (match goal with
+       | H : forin_loop _ _ _ _ = (_, _) |- _ =>
+           eapply forin_loop_mono; [ | | exact H | assumption ];
+           [ intros ? ? ? ? Hb Hnb; eapply IHe; [exact Hle | exact Hb | exact Hnb] | lia ]
+       end);
   try (eapply IHe; eassumption);
   try (eapply IHi; eassumption);
   try (eapply IHh; eassumption).
@@ -250,6 +271,30 @@ Proof.
     + inversion H; subst; auto.
 Qed.
 
+Lemma forin_step_le : forall st s c st1 s', forin_step st s = LsBind c st1 s' -> st_le st st1.
+Proof.
+  intros st s c st1 s' H. destruct s; simpl in H.
+  - destruct (_ <=? _)%Z; inversion H; subst. apply (st_le_alloc st (CInt z)).
+  - destruct (_ <=? _)%Z; inversion H; subst. apply (st_le_alloc st (CInt z)).
+  - destruct (get_cell st ca) as [[| | |[ar|]|]|]; try discriminate.
+    destruct (nth_error (arrs st) ar); try discriminate.
+    destruct (nth_error l i); inversion H; subst. apply st_le_refl.
+Qed.
+
+Lemma forin_loop_le : forall (ev : nat -> state -> res * state),
+  (forall c st r st', ev c st = (r, st') -> st_le st st') ->
+  forall n s st r st', forin_loop ev n s st = (r, st') -> st_le st st'.
+Proof.
+  intros ev Hev. induction n as [|n IH]; intros s st r st' H.
+  - rewrite forin_loop_O in H. inversion H; apply st_le_refl.
+  - rewrite forin_loop_S in H. destruct (forin_step st s) as [|rf|c st1 s'] eqn:Es.
+    + apply st_le_fresh in H. tauto.
+    + inversion H; apply st_le_refl.
+    + apply forin_step_le in Es. destruct (ev c st1) as [r2 s2] eqn:E2. apply Hev in E2.
+      destruct r2; try (inversion H; subst; eapply st_le_trans; eassumption).
+      apply IH in H. eapply st_le_trans; [eassumption|]. eapply st_le_trans; eassumption.
+Qed.
+
 Ltac chain :=
   repeat match goal with
   | H : st_le ?a ?b |- st_le ?a ?c => apply (st_le_trans a b c H); clear H
@@ -269,6 +314,8 @@ Ltac grow_leaf IHe IHi IHh :=
   | H : handlers _ _ _ _ _ _ _ = (_, _) |- _ => apply IHh in H
   | H : eval_args _ _ _ _ _ = (_, _) |- _ =>
       apply (eval_args_f_le _ (fun st a r st' => IHe _ st a r st')) in H
+  | H : forin_loop _ _ _ _ = (_, _) |- _ =>
+      apply (forin_loop_le _ (fun c st r st' => IHe _ st _ r st')) in H
   end.
 
 Ltac grow_step :=
